@@ -23,7 +23,9 @@ def location_summary(location):
 
 def error_summary(error, with_message=True):
     """Reduce an exception to what oracles compare: class, location, see-also line, message."""
-    result = {"class": type(error).__name__}
+    from cutplace import errors as cutplace_errors
+
+    result = {"class": type(error).__name__, "is_data_error": isinstance(error, cutplace_errors.DataError)}
     location = getattr(error, "location", None)
     result["loc"] = location_summary(location)
     see_also = getattr(error, "see_also_location", None)
